@@ -29,6 +29,7 @@ pub fn check(c: &Case) -> Checked {
     // texts with syntax errors are C04's business (C03 is about programs the checker accepts)
     let src = c.src.clone();
     let p2 = path.clone();
+    crate::util::phase("parse");
     match crate::util::catch(move || !mimium_lang::compiler::parser::parse_to_expr(&src, p2).2.is_empty()) {
         Ok(true) | Err(_) => {
             res.syntax_error = true;
@@ -41,8 +42,10 @@ pub fn check(c: &Case) -> Checked {
         let steps0 = mimium_lang::verif::total_steps();
         let ops0 = mimium_lang::verif::state_event_count();
         let _ = mimium_lang::verif::take_misc_events();
+        crate::util::phase(&format!("compile/{}", b.name()));
         match Session::build(b, &c.src, c.scheduler, path.clone()) {
             Ok(mut s) => {
+                crate::util::phase(&format!("dsp/{}", b.name()));
                 res.accepted.push(b.name());
                 if b == Backend::Vm {
                     vm_accepts = true;
@@ -182,11 +185,26 @@ fn exec(c: &Case, idx: usize, out: &mut Out) -> bool {
 
 /// Near-miss text mutations: change the type of something and see whether the checker
 /// still accepts (most are rejected with a diagnostic, which is fine).
+const GENERIC_TEMPLATES: [&str; 7] = [
+    "fn choose(c, a, b){\n  let first = if (c) a else b\n  if (c) a else b\n}\nfn dsp(){\n  choose(1.0, 2.0, 3.0)\n}\n",
+    "fn twice(f, x){\n  f(f(x))\n}\nfn dsp(){\n  twice(|v| v + 1.0, 1.0)\n}\n",
+    "fn pair(a, b){\n  (a, b)\n}\nfn fst(p){\n  p.0\n}\nfn dsp(){\n  fst(pair(1.0, 2.0))\n}\n",
+    "fn pick(c, a, b){\n  let t = (a, b)\n  if (c) t.0 else t.1\n}\nfn dsp(){\n  pick(0.0, 1.0, 2.0)\n}\n",
+    "fn app(f, a){\n  f(a)\n}\nfn id(x){\n  x\n}\nfn dsp(){\n  app(id, 1.0)\n}\n",
+    "fn sel(c, a, b){\n  let u = if (c) b else a\n  let w = if (c) a else u\n  w\n}\nfn dsp(){\n  sel(1.0, 2.0, 3.0) + sel(0.0, 1.0, 1.0)\n}\n",
+    "fn keep(a, b){\n  let arr = [a, b]\n  arr[0]\n}\nfn dsp(){\n  keep(1.0, 2.0)\n}\n",
+];
+
 pub fn near_miss(src: &str, rng: &mut Rng) -> String {
+    near_miss_with(src, rng, false)
+}
+
+/// `any_ident`: the wrap mutation may hit any lower-case identifier use (hand-written templates)
+pub fn near_miss_with(src: &str, rng: &mut Rng, any_ident: bool) -> String {
     let mut s = src.to_string();
     let find_all = |s: &str, pat: &str| -> Vec<usize> { s.match_indices(pat).map(|m| m.0).collect() };
     for _ in 0..(1 + rng.below(2)) {
-        match rng.below(7) {
+        match if any_ident { 7 + rng.below(2) } else { rng.below(9) } {
             0 => {
                 let at = find_all(&s, "float");
                 if !at.is_empty() {
@@ -242,6 +260,44 @@ pub fn near_miss(src: &str, rng: &mut Rng) -> String {
                 if !at.is_empty() {
                     let i = *rng.pick(&at);
                     s.replace_range(i..i + 4, *rng.pick(&["mem((1.0, 2.0), ", "delay(0.0, 1.0, ", "delay(1.0, "]));
+                }
+            }
+            7 | 8 => {
+                // one occurrence of an identifier becomes an array / tuple / record of itself
+                // (e.g. one arm of an `if` yields x, the other [x])
+                let b = s.as_bytes();
+                let mut idents: Vec<(usize, usize)> = vec![];
+                let mut i = 0;
+                while i < b.len() {
+                    if (b[i].is_ascii_lowercase()) && (i == 0 || !(b[i - 1].is_ascii_alphanumeric() || b[i - 1] == b'_' || b[i - 1] == b'.')) {
+                        let mut j = i;
+                        while j < b.len() && (b[j].is_ascii_alphanumeric() || b[j] == b'_') {
+                            j += 1;
+                        }
+                        let w = &s[i..j];
+                        let is_generated_var = w.len() >= 2 && w[1..].chars().any(|c| c.is_ascii_digit()) && !w.starts_with("sf") && !w.starts_with("pf") && !w.starts_with("rf") && !w.starts_with("mk");
+                        // a use, not a binder or call: followed by neither ':' '=' nor '('
+                        let next = s[j..].trim_start().chars().next().unwrap_or(' ');
+                        let prev_let = s[..i].trim_end().ends_with("let") || s[..i].trim_end().ends_with('|') || s[..i].trim_end().ends_with(',') && s[j..].trim_start().starts_with('|');
+                        let kw = matches!(w, "fn" | "let" | "if" | "else" | "dsp" | "self" | "now" | "samplerate");
+                        if (is_generated_var || (any_ident && !kw)) && !matches!(next, ':' | '=' | '(') && !prev_let {
+                            idents.push((i, j));
+                        }
+                        i = j;
+                    } else {
+                        i += 1;
+                    }
+                }
+                if !idents.is_empty() {
+                    let (i, j) = *rng.pick(&idents);
+                    let w = s[i..j].to_string();
+                    let r = match rng.below(4) {
+                        0 => format!("[{w}]"),
+                        1 => format!("({w}, {w})"),
+                        2 => format!("{{a = {w}}}"),
+                        _ => format!("(|| {w})"),
+                    };
+                    s.replace_range(i..j, &r);
                 }
             }
             _ => {
@@ -322,6 +378,14 @@ pub fn run(args: &Args, out: &mut Out) {
                     c.src = near_miss(&c.src, rng);
                     c.prog = None;
                     c.origin = Some("nearmiss:generated".into());
+                } else if rng.chance(1, 12) {
+                    // near-miss of a small program with unannotated (polymorphic) parameters: the
+                    // generated programs pin every type early, these keep type variables alive
+                    let t = *rng.pick(&GENERIC_TEMPLATES);
+                    c.src = near_miss_with(t, rng, true);
+                    c.prog = None;
+                    c.n = 4;
+                    c.origin = Some("nearmiss:generic-template".into());
                 }
                 Some(c)
             }
